@@ -181,3 +181,17 @@ Proof.
   destruct (rs_get_linear_index_is_model a indices Hs) as (H1 & _ & H3).
   split; [exact H1|]. split; [exact H3|]. intros i Hi. exact (rs_index_in_cells a indices i Hs Hc Hi).
 Qed.
+
+(* ---------------- when the caps are tested (the model side of Gen/ProgramEvents.v) ---------------- *)
+
+Theorem model_cap_order : forall sym a b c n name bs s,
+  (forall u s1, remove_loop_with_name sym s = (Ok u, s1) -> List.length (loops s1) = stack_limit ->
+     start_loop sym a b c s = (Err EStackOverflow None, s1)) /\
+  (List.length (stack s) = stack_limit -> gosub_line_number n s = (Err EStackOverflow None, s)) /\
+  (List.length (stack s) = stack_limit -> push_function_call name bs s = (Err EStackOverflow None, s)).
+Proof.
+  intros sym a b c n name bs s. split; [|split].
+  - intros u s1 H1 H2. unfold start_loop, bind at 1. rewrite H1. unfold bind at 1, get. rewrite H2, Nat.eqb_refl. reflexivity.
+  - intros H. unfold gosub_line_number, bind at 1, get. rewrite H, Nat.eqb_refl. reflexivity.
+  - intros H. unfold push_function_call, bind at 1, get. rewrite H, Nat.eqb_refl. reflexivity.
+Qed.
